@@ -157,7 +157,76 @@ func scenario(maxRetries int, rfIdx int, elapsed bool, cancelling bool) *explore
 	}}
 }
 
+// Two messages retried at the same time through ONE handler returned by Middleware (what a router does with
+// concurrent deliveries): each message keeps its own back-off sequence, attempt count and hook numbering.
+func concurrentScenario(c int) *explore.Scenario {
+	return &explore.Scenario{Name: fmt.Sprintf("retry/concurrent-messages/c%d", c), C: c, Body: func() {
+		const initial = 10 * time.Millisecond
+		mult := []float64{1, 2}[vs.Choose(2, 0, "Multiplier")]
+		offset := []time.Duration{0, 5 * time.Millisecond, 15 * time.Millisecond, 35 * time.Millisecond}[vs.Choose(4, 0, "second message arrives after")]
+		failuresB := vs.Choose(3, 0, "failures of the second message")
+		maxRetries := 3
+		r := middleware.Retry{MaxRetries: maxRetries, InitialInterval: initial, MaxInterval: time.Hour, Multiplier: mult}
+		starts := map[string][]time.Duration{}
+		fails := map[string]int{"A": maxRetries + 1, "B": failuresB}
+		h := r.Middleware(func(m *message.Message) ([]*message.Message, error) {
+			starts[m.UUID] = append(starts[m.UUID], vs.VirtualNow())
+			if len(starts[m.UUID]) <= fails[m.UUID] {
+				return nil, fmt.Errorf("err-%s-%d", m.UUID, len(starts[m.UUID])-1)
+			}
+			return hx.Outputs(m, 1), nil
+		})
+		errs := map[string]error{}
+		outs := map[string]int{}
+		var wg vs.WaitGroup
+		for _, id := range []string{"A", "B"} {
+			id := id
+			wg.Add(1)
+			go func() {
+				defer wg.Done()
+				if id == "B" && offset > 0 {
+					time.Sleep(offset)
+				}
+				o, err := h(hx.Msg(id))
+				errs[id], outs[id] = err, len(o)
+			}()
+		}
+		wg.Wait()
+		cfg := fmt.Sprintf("Multiplier=%v, B arrives after %v and fails %d times", mult, offset, failuresB)
+		for _, id := range []string{"A", "B"} {
+			want := fails[id] + 1
+			if want > maxRetries+1 {
+				want = maxRetries + 1
+			}
+			if len(starts[id]) != want {
+				vs.Fail("attempt-count", "%s: message %s was attempted %d times, expected %d", cfg, id, len(starts[id]), want)
+			}
+			if fails[id] > maxRetries {
+				if errs[id] == nil || errs[id].Error() != fmt.Sprintf("err-%s-%d", id, maxRetries) {
+					vs.Fail("last-error", "%s: message %s returned %v", cfg, id, errs[id])
+				}
+			} else if errs[id] != nil || outs[id] != 1 {
+				vs.Fail("first-success-wins", "%s: message %s returned (%d outputs, %v)", cfg, id, outs[id], errs[id])
+			}
+			interval := initial
+			for k := 1; k < len(starts[id]); k++ {
+				if wait := starts[id][k] - starts[id][k-1]; wait < interval-1 {
+					vs.Fail("back-off", "%s: message %s waited %v before retry %d, configured back-off %v", cfg, id, wait, k, interval)
+				}
+				interval = time.Duration(float64(interval) * mult)
+			}
+		}
+		vs.Note("%s A=%v B=%v", cfg, starts["A"], starts["B"])
+	}}
+}
+
 func init() {
+	reg.AddW("C12", "retry/concurrent-messages/c0", reg.Quick, 10, func(t reg.Tier) *explore.Scenario {
+		if t == reg.Thorough {
+			return concurrentScenario(1)
+		}
+		return concurrentScenario(0)
+	})
 	for mr := 1; mr <= 8; mr++ {
 		for rfi := range rfs {
 			mr, rfi := mr, rfi
